@@ -34,7 +34,7 @@ def run(ck):
         if d.get('integrity') != 'ok':
             wit.append({'kind': 'integrity', 'case': c, 'verdict': v, 'implementation': o.split('|')[0][:400]})
     ck.corr['Weave (path expansion, merges, final rows) vs aln_setup.c/weave_alignment.c/msa_op.c'] = {'cases': len(res), 'disagreements': len(corr_bad)}
-    fres = wc.file_api_cases(ck, cases, 40 if ck.tier == 'quick' else 300)
+    fres = wc.file_api_cases(ck, wc.late_punct_cases(ck, 3 if ck.tier == 'quick' else 20) + cases, 43 if ck.tier == 'quick' else 320)
     for c, fmt, good, detail, names in fres:
         if sum(1 for s in c['seqs'] if s) < 2:
             continue
